@@ -15,7 +15,7 @@ def check(rep):
     ER.rule_none_is_error(ctx)
     GR.rule_grammar_agrees(ctx)
     ER.rule_skip_guard(ctx, rid="C06.SKIP-EXACT")
-    ER.rule_commit_order(ctx, rid="C06.NO-ACCEPT-ON-FAILURE")
+    ER.rule_commit_order(ctx, rid="C06.NO-ACCEPT-ON-FAILURE", parse_only=True)
     rep.assume("NOT claimed: an unterminated /* at end of input (sly ends tokenising in whatever state)")
     return ("Decides that neither lexer nor parser has a path that drops input and continues (all-paths-raise on both error() "
             "methods, the lexer's reachable because the main state is not total - witness computed; the vendored runtime's "
